@@ -83,16 +83,17 @@ func (f *ruleFactory) CreateRule(version, srcID string, ruleConfig config2.Rule)
 		return nil, err
 	}
 
-	var allowsBacktracking bool
+	// the rule's own setting wins; without it the default rule's setting applies
+	// (f.defaultBacktracking is false if there is no default rule)
+	allowsBacktracking := x.IfThenElseExec(ruleConfig.Matcher.BacktrackingEnabled != nil,
+		func() bool { return *ruleConfig.Matcher.BacktrackingEnabled },
+		func() bool { return f.defaultBacktracking })
 
 	if f.defaultRule != nil {
 		authenticators = x.IfThenElse(len(authenticators) != 0, authenticators, f.defaultRule.sc)
 		subHandlers = x.IfThenElse(len(subHandlers) != 0, subHandlers, f.defaultRule.sh)
 		finalizers = x.IfThenElse(len(finalizers) != 0, finalizers, f.defaultRule.fi)
 		errorHandlers = x.IfThenElse(len(errorHandlers) != 0, errorHandlers, f.defaultRule.eh)
-		allowsBacktracking = x.IfThenElseExec(ruleConfig.Matcher.BacktrackingEnabled != nil,
-			func() bool { return *ruleConfig.Matcher.BacktrackingEnabled },
-			func() bool { return f.defaultBacktracking })
 	}
 
 	if len(authenticators) == 0 {
